@@ -455,6 +455,8 @@ pub enum DirOp {
     WriteString(String),
     Flush,
     Dirent { stream_type: u32, from_alloc: u32 },
+    /// emit a directory entry without flushing (DirSection::dump_dir_entry called on its own)
+    EntryOnly { stream_type: u32, from_alloc: u32 },
 }
 
 #[derive(Serialize, Deserialize, Clone, Debug)]
